@@ -590,7 +590,7 @@ fn run_label(local: u32, cap: u32) -> String
 
 /// An ordinary scripted system. `ewr` = index of the entity world reactor this system is (it then reads `EntityLocal`).
 fn make_ordinary(def: usize, name: usize, ewr: Option<usize>)
-    -> impl FnMut(Local<u32>, Commands, EvReaders, EntReaders, Access, &bevy::ecs::entity::Entities) -> WarnErr + Send + Sync + 'static
+    -> impl FnMut(Local<u32>, Commands, EvReaders, EntReaders, Access, &bevy::ecs::entity::Entities) -> AnyRes + Send + Sync + 'static
 {
     debug_assert!(ewr.is_none());
     let canary = Canary(name);
@@ -604,7 +604,7 @@ fn make_ordinary(def: usize, name: usize, ewr: Option<usize>)
         drop(taken);
         *local += 1;
         cap += 1;
-        if runaway() { return OK; }
+        if runaway() { return AnyRes::W(OK); }
         let script = script_for(def, run);
         let owner = format!("s{name}");
         run_script(&mut c, &mut Ctx::Full(&mut acc), &script, &owner, run);
@@ -613,11 +613,32 @@ fn make_ordinary(def: usize, name: usize, ewr: Option<usize>)
     }
 }
 
-/// What a scripted system returns: every third (name + run) an error for the crate's result handler (a `WarnErr`); the
-/// model ignores results, as the crate's bookkeeping must.
-fn scripted_result(name: usize, run: u32) -> WarnErr
+/// What a scripted system returns. The crate implements `CobwebResult` for `WarnErr`, `DropErr` and `()`; a scripted system
+/// uses one of the three by its name, through a wrapper that only delegates to the crate's implementation. Every third
+/// (name + run) is an error. The model ignores results, as the crate's bookkeeping must.
+pub enum AnyRes { W(WarnErr), D(DropErr), U(()) }
+
+impl CobwebResult for AnyRes
 {
-    if (name + run as usize) % 3 == 0 { Err(WarnError::Msg(format!("scripted error of s{name} run {run}"))) } else { OK }
+    fn need_to_handle(&self) -> bool
+    {
+        match self { AnyRes::W(r) => r.need_to_handle(), AnyRes::D(r) => r.need_to_handle(), AnyRes::U(r) => r.need_to_handle() }
+    }
+    fn handle(self, world: &mut World)
+    {
+        match self { AnyRes::W(r) => r.handle(world), AnyRes::D(r) => r.handle(world), AnyRes::U(r) => r.handle(world) }
+    }
+}
+
+fn scripted_result(name: usize, run: u32) -> AnyRes
+{
+    let err = (name + run as usize) % 3 == 0;
+    match name % 3
+    {
+        0 => AnyRes::W(if err { Err(WarnError::Msg(format!("scripted error of s{name} run {run}"))) } else { OK }),
+        1 => AnyRes::D(if err { Err(IgnoredError) } else { DONE }),
+        _ => AnyRes::U(()),
+    }
 }
 
 macro_rules! make_ewr_system {
@@ -678,7 +699,7 @@ fn runaway() -> bool
 
 /// An exclusive scripted system: samples the readers through a `Commands`-free nested syscall and queues its
 /// actions on the world queue.
-fn make_exclusive(def: usize, name: usize) -> impl FnMut(&mut World, Local<u32>) -> WarnErr + Send + Sync + 'static
+fn make_exclusive(def: usize, name: usize) -> impl FnMut(&mut World, Local<u32>) -> AnyRes + Send + Sync + 'static
 {
     let canary = Canary(name);
     let mut cap = 0u32;
@@ -692,7 +713,7 @@ fn make_exclusive(def: usize, name: usize) -> impl FnMut(&mut World, Local<u32>)
         drop(taken);
         *local += 1;
         cap += 1;
-        if runaway() { return OK; }
+        if runaway() { return AnyRes::W(OK); }
         let script = script_for(def, run);
         let owner = format!("s{name}");
         let mut c = world.commands();
@@ -709,9 +730,9 @@ thread_local! { static ZST_RUNS: RefCell<std::collections::HashMap<usize, u32>> 
 /// the system the runner is executing (maintained by the hook sink); its "captured" counter lives in a side table keyed by
 /// that name, so that a `Local` shared between two registrations of the same function shows as a label mismatch.
 fn app_reactor<const D: usize>(mut local: Local<u32>, mut c: Commands, mut ev: EvReaders, er: EntReaders, mut acc: Access,
-    ents: &bevy::ecs::entity::Entities) -> WarnErr
+    ents: &bevy::ecs::entity::Entities) -> AnyRes
 {
-    let Some(me) = CURRENT.with(|c| c.borrow().last().copied()) else { log("app reactor outside the runner".into()); return OK };
+    let Some(me) = CURRENT.with(|c| c.borrow().last().copied()) else { log("app reactor outside the runner".into()); return AnyRes::W(OK) };
     let name = SH.with(|s| s.borrow().sys_names.iter().position(|x| *x == me)).unwrap_or(usize::MAX);
     let cap = ZST_RUNS.with(|z| { let mut z = z.borrow_mut(); let e = z.entry(name).or_insert(0); let v = *e; *e += 1; v });
     let run = *local;
@@ -719,7 +740,7 @@ fn app_reactor<const D: usize>(mut local: Local<u32>, mut c: Commands, mut ev: E
     log(format!("body s{} {} {} loc=", name, run_label(run, cap), obs));
     drop(taken);
     *local += 1;
-    if runaway() { return OK; }
+    if runaway() { return AnyRes::W(OK); }
     let script = script_for(D, cap);
     let owner = format!("s{name}");
     run_script(&mut c, &mut Ctx::Full(&mut acc), &script, &owner, cap);
